@@ -5,6 +5,9 @@ use rnacos::common::model::privilege::{NamespacePrivilegeGroup, PrivilegeGroup};
 use rnacos::config::config_index::ConfigQueryParam;
 use rnacos::config::core::{ConfigCmd, ConfigKey, ConfigResult};
 use rnacos::config::dal::ConfigHistoryParam;
+use rnacos::mcp::model::actor_model::{McpManagerRaftReq, McpManagerReq, McpManagerResult};
+use rnacos::mcp::model::mcp::McpServerParam;
+use rnacos::mcp::model::tools::{JsonSchema, McpSimpleTool, ToolFunctionValue, ToolKey, ToolRouteRule, ToolSpecParam};
 use rnacos::namespace::model::{NamespaceParam, NamespaceQueryReq, NamespaceQueryResult, NamespaceRaftReq};
 use rnacos::naming::model::actor_model::{InstanceRegisterParam, NamingRaftReq};
 use rnacos::naming::model::InstanceKey;
@@ -16,7 +19,7 @@ use rnacos::user::{UserManagerReq, UserManagerResult};
 use serde::{Deserialize, Serialize};
 use std::collections::{BTreeMap, HashMap};
 use std::sync::Arc;
-use tokio::sim;
+use tokio::sim::{self, Rng};
 
 pub const TENANTS: [&str; 3] = ["", "t1", "tenant-two"];
 pub const GROUPS: [&str; 2] = ["DEFAULT_GROUP", "g2"];
@@ -52,6 +55,14 @@ pub enum WStep {
     /// one record of a data import (what TransferImportManager::apply_config does): draw a section of history ids from
     /// the config actor, optionally let a publish slip in, then write the full value with its history through raft
     Import { node: u64, t: u8, g: u8, d: u8, inter: bool },
+    /// MCP tool definition `k` gets a new version (unique description)
+    McpTool { node: u64, k: u8 },
+    McpToolDel { node: u64, k: u8 },
+    /// MCP server `id` is created (or updated when it exists) with one tool: definition `k` at the version that is current
+    /// now (or, `old`, at the version before it - still referenced although the definition has moved on); `publish`: the new
+    /// value is released at once (create) / the current value is released afterwards (update)
+    McpServer { node: u64, id: u8, k: u8, old: bool, publish: bool },
+    McpServerDel { node: u64, id: u8 },
 }
 
 /// namespace ids: two of the four are tenants that configurations are published in, so that user-created namespaces hold
@@ -61,6 +72,60 @@ pub fn ns_id(id: u8) -> String {
         1 => TENANTS[1].to_string(),
         2 => TENANTS[2].to_string(),
         x => format!("ns{}", x),
+    }
+}
+
+pub fn mcp_tool_key(k: u8) -> ToolKey {
+    ToolKey::new(Arc::new("public".to_string()), Arc::new("grp".to_string()), Arc::new(format!("tool{}", k % 3)))
+}
+
+fn strip_ref_counts(v: &mut serde_json::Value) {
+    match v {
+        serde_json::Value::Object(m) => {
+            m.remove("ref_count");
+            m.remove("refCount");
+            for x in m.values_mut() {
+                strip_ref_counts(x);
+            }
+        }
+        serde_json::Value::Array(a) => a.iter_mut().for_each(strip_ref_counts),
+        _ => {}
+    }
+}
+
+/// What a node serves for the MCP servers and tool definitions of the workload: the public queries GetServer (current,
+/// released and historic values with the tool definitions they resolve to) and GetToolSpec (every version), as canonical
+/// JSON. Reference counters of tool versions are bookkeeping, not served data, and are left out.
+pub async fn mcp_obs(n: &NodeH) -> anyhow::Result<Vec<(String, String)>> {
+    let mut out = vec![];
+    for id in 0..3u64 {
+        if let McpManagerResult::ServerInfo(Some(sv)) = n.app.mcp_manager.send(McpManagerReq::GetServer(7000 + id)).await?? {
+            let mut v = serde_json::to_value(sv.as_ref())?;
+            strip_ref_counts(&mut v);
+            out.push((format!("server{}", id), v.to_string()));
+        }
+    }
+    for k in 0..3u8 {
+        if let McpManagerResult::ToolSpecInfo(Some(ts)) = n.app.mcp_manager.send(McpManagerReq::GetToolSpec(mcp_tool_key(k))).await?? {
+            let mut v = serde_json::to_value(ts.as_ref())?;
+            strip_ref_counts(&mut v);
+            out.push((format!("tool{}", k), v.to_string()));
+        }
+    }
+    Ok(out)
+}
+
+pub fn gen_mcp_step(rng: &mut Rng, nodes: u64) -> WStep {
+    let node = rng.range(1, nodes);
+    let r = rng.below(100);
+    if r < 40 {
+        WStep::McpTool { node, k: rng.below(2) as u8 }
+    } else if r < 85 {
+        WStep::McpServer { node, id: rng.below(2) as u8, k: rng.below(2) as u8, old: rng.chance(0.4), publish: rng.chance(0.5) }
+    } else if r < 93 {
+        WStep::McpServerDel { node, id: rng.below(2) as u8 }
+    } else {
+        WStep::McpToolDel { node, k: rng.below(2) as u8 }
     }
 }
 
@@ -101,6 +166,9 @@ pub struct WModel {
     pub pinst: BTreeMap<(String, String), f32>,
     pub uniq: u64,
     pub last_content: HashMap<String, String>,
+    /// versions handed to MCP tool definitions so far (per definition, ascending) and the servers that exist
+    pub mcp_tool_versions: BTreeMap<u8, Vec<u64>>,
+    pub mcp_servers: std::collections::BTreeSet<u8>,
 }
 
 /// (4 = a blank string: the console passes "" straight through when a user clears the field)
@@ -430,13 +498,97 @@ pub async fn do_step(n: &NodeH, st: &WStep, m: &mut WModel, timeout_ms: u64) -> 
             advance(*ms).await;
             OpOutcome::Ok
         }
+        WStep::McpTool { k, .. } => {
+            m.uniq += 1;
+            let version = m.uniq;
+            let key = mcp_tool_key(*k);
+            let p = ToolSpecParam { namespace: key.namespace, group: key.group, tool_name: key.tool_name, parameters: ToolFunctionValue { name: Arc::new(format!("tool{}", k % 3)), description: Arc::new(format!("definition v{}", version)), input_schema: Box::new(JsonSchema::new_object()) }, version, update_time: 1_700_000_000_000 + version as i64, op_user: Some(Arc::new("sim".to_string())) };
+            sim::count("probe.mcp_op", 1);
+            match within(timeout_ms, n.app.raft_request_route.request(ClientRequest::McpReq { req: McpManagerRaftReq::UpdateToolSpec(p) })).await {
+                None => OpOutcome::Timeout,
+                Some(Ok(_)) => {
+                    m.mcp_tool_versions.entry(*k % 3).or_default().push(version);
+                    OpOutcome::Ok
+                }
+                Some(Err(e)) => OpOutcome::Err(e.to_string()),
+            }
+        }
+        WStep::McpToolDel { k, .. } => {
+            sim::count("probe.mcp_op", 1);
+            match within(timeout_ms, n.app.raft_request_route.request(ClientRequest::McpReq { req: McpManagerRaftReq::RemoveToolSpec(mcp_tool_key(*k)) })).await {
+                None => OpOutcome::Timeout,
+                Some(Ok(_)) => {
+                    m.mcp_tool_versions.remove(&(*k % 3));
+                    OpOutcome::Ok
+                }
+                // (refused - "tool spec is used" - while a server still refers to the definition)
+                Some(Err(_)) => OpOutcome::Ok,
+            }
+        }
+        WStep::McpServer { id, k, old, publish, .. } => {
+            // a server refers to a version the node still holds: the current one or (`old`) the oldest retained one (a
+            // version stays as long as a server value refers to it)
+            let vs: Vec<u64> = match n.app.mcp_manager.send(McpManagerReq::GetToolSpec(mcp_tool_key(*k))).await {
+                Ok(Ok(McpManagerResult::ToolSpecInfo(Some(ts)))) => ts.versions.keys().cloned().collect(),
+                _ => vec![],
+            };
+            let tool_version = match vs.len() {
+                0 => return OpOutcome::Ok,
+                l => if *old { vs[0] } else { vs[l - 1] },
+            };
+            if *old && vs.len() > 1 {
+                sim::count("probe.mcp_server_refers_to_older_tool_version", 1);
+            }
+            m.uniq += 2;
+            let sid = 7000 + (*id % 3) as u64;
+            let exists = m.mcp_servers.contains(&(*id % 3));
+            let p = McpServerParam {
+                id: sid,
+                unique_key: Some(Arc::new(format!("srv-key-{}", id % 3))),
+                value_id: m.uniq * 10,
+                tools: vec![McpSimpleTool { tool_name: Arc::new(format!("tool{}", k % 3)), tool_key: mcp_tool_key(*k), tool_version, route_rule: ToolRouteRule::default() }],
+                op_user: Arc::new("sim".to_string()),
+                update_time: 1_700_000_000_000 + m.uniq as i64,
+                namespace: Some(Arc::new("public".to_string())),
+                name: Some(Arc::new(format!("server{}", id % 3))),
+                description: Some(Arc::new(format!("srv v{}", m.uniq))),
+                token: None,
+                auth_keys: Some(vec![Arc::new(format!("k{}", m.uniq))]),
+                publish_value_id: if *publish && !exists { Some(m.uniq * 10 + 1) } else { None },
+            };
+            sim::count("probe.mcp_op", 1);
+            let req = if exists { McpManagerRaftReq::UpdateServer(p) } else { McpManagerRaftReq::AddServer(p) };
+            let r = match within(timeout_ms, n.app.raft_request_route.request(ClientRequest::McpReq { req })).await {
+                None => return OpOutcome::Timeout,
+                Some(Ok(_)) => {
+                    m.mcp_servers.insert(*id % 3);
+                    OpOutcome::Ok
+                }
+                Some(Err(e)) => OpOutcome::Err(e.to_string()),
+            };
+            if exists && *publish {
+                let _ = within(timeout_ms, n.app.raft_request_route.request(ClientRequest::McpReq { req: McpManagerRaftReq::PublishCurrentServer(sid, m.uniq * 10 + 1) })).await;
+            }
+            r
+        }
+        WStep::McpServerDel { id, .. } => {
+            sim::count("probe.mcp_op", 1);
+            match within(timeout_ms, n.app.raft_request_route.request(ClientRequest::McpReq { req: McpManagerRaftReq::RemoveServer(7000 + (*id % 3) as u64) })).await {
+                None => OpOutcome::Timeout,
+                Some(Ok(_)) => {
+                    m.mcp_servers.remove(&(*id % 3));
+                    OpOutcome::Ok
+                }
+                Some(Err(e)) => OpOutcome::Err(e.to_string()),
+            }
+        }
         WStep::Restart { .. } | WStep::KillRestart { .. } | WStep::PlantSnapshot { .. } => OpOutcome::Ok,
     }
 }
 
 pub fn step_node(st: &WStep) -> u64 {
     match st {
-        WStep::CfgSet { node, .. } | WStep::CfgDel { node, .. } | WStep::NsSet { node, .. } | WStep::NsDel { node, .. } | WStep::UserAdd { node, .. } | WStep::UserUpd { node, .. } | WStep::UserDel { node, .. } | WStep::SeqNext { node, .. } | WStep::SeqRange { node, .. } | WStep::SeqBurst { node, .. } | WStep::PInstReg { node, .. } | WStep::PInstDel { node, .. } | WStep::Restart { node } | WStep::KillRestart { node } | WStep::Import { node, .. } | WStep::PlantSnapshot { node, .. } => *node,
+        WStep::CfgSet { node, .. } | WStep::CfgDel { node, .. } | WStep::NsSet { node, .. } | WStep::NsDel { node, .. } | WStep::UserAdd { node, .. } | WStep::UserUpd { node, .. } | WStep::UserDel { node, .. } | WStep::SeqNext { node, .. } | WStep::SeqRange { node, .. } | WStep::SeqBurst { node, .. } | WStep::PInstReg { node, .. } | WStep::PInstDel { node, .. } | WStep::Restart { node } | WStep::KillRestart { node } | WStep::Import { node, .. } | WStep::PlantSnapshot { node, .. } | WStep::McpTool { node, .. } | WStep::McpToolDel { node, .. } | WStep::McpServer { node, .. } | WStep::McpServerDel { node, .. } => *node,
         WStep::Advance { .. } => 0,
     }
 }
